@@ -223,8 +223,12 @@ def monitor(run: Run):
                 prev = c
     # I4 (general form): with a connection lifetime configured, nothing is written on a connection older than that
     if run.life:
+        # (only the first packet of an exchange: retransmissions inside an exchange that began in time are legitimate)
         opened = {c.index: c.opened_at for c in run.w.net.conns}
-        for e in dev.rx:
+        for m in run.marks:
+            if m["ev"][0] == "jump" or m["rx_from"] >= len(dev.rx) or m["rx_from"] >= m.get("rx_to", len(dev.rx)):
+                continue
+            e = dev.rx[m["rx_from"]]
             if e["t"] - opened[e["conn"]] > LIFETIME + 1e-6:
                 out.append(("I4 packet written on a connection past its lifetime", f"conn {e['conn']} age {e['t'] - opened[e['conn']]:.1f}s"))
                 break
